@@ -29,7 +29,8 @@ PROP = "C17"
 RULE = ("ADMGs with 1-7 nodes (evaluated on SCMs up to 5 nodes in the quick tier, 6 in the thorough tier); every "
         "district T; every C subset of T inducing a single district (sampled when there are many); 1-3 random linear "
         "extensions (optionally with extra names the graph does not contain); Q[T] given as a Probability P(T|Z) / "
-        "population-tagged PP(T|Z) when T is a block of some topological order (Lemma-1 branch), as the Lemma-1 "
+        "population-tagged PP(T|Z) when T is a block of some topological order (Lemma-1 branch), in interventional form "
+        "P[Pa(T)](T), P[V\\T](T), PP[pi][Pa(T)](T), mixed P[Z1](T|Z2), with redundant children P(T,W|Z), as the Lemma-1 "
         "Product of conditionals of ANOTHER topological order, as the Lemma-4 Product/Fraction of sums of P(V), as "
         "Sum_{V\\T} P(V) when T is ancestral, and chained (the estimand returned for a sub-district T' used as the "
         "input of the next call); the five c-factor routines on ancestral sets H of G and ancestral subsets of "
@@ -186,6 +187,10 @@ def _district_q_candidates(rng, g, T, V, di, want):
         out.append(("pprob", eP(T, Z, pop=1001)))
     if "prob_pa" in want and block:
         out.append(("prob_pa", eP(T, sorted(anc - set(T)))))
+    if "prob_redundant" in want and block and Z:
+        # P(T, W | Z) with W part of Z denotes the same function; outside ProbShape (oracle only)
+        W = [z for z in Z if rng.random() < 0.5] or Z[:1]
+        out.append(("prob_redundant", eP(T + W, Z)))
     # the literal definition of the c-factor: the distribution of T under do(V \\ T) (or do(Pa(T) \\ T))
     pa_T = sorted({u for (u, w) in di if w in T and u not in T})
     if "iprob" in want and pa_T:
@@ -249,7 +254,7 @@ def _gen_valid(rng, tier, n_graphs, nmax_eval):
         base = {"g": g, "scm_seed": rng.randrange(1 << 30), "evaluate": evaluate, "q_by_construction": True}
         dists = S.districts_of(bi, V)
         for T in dists:
-            cands = _district_q_candidates(rng, g, T, V, di, want={"prob", "pprob", "prob_pa", "prod", "pprod", "frac", "sum", "iprob", "iprob_all", "ipprob", "iprob_mixed"})
+            cands = _district_q_candidates(rng, g, T, V, di, want={"prob", "pprob", "prob_pa", "prob_redundant", "prod", "pprod", "frac", "sum", "iprob", "iprob_all", "ipprob", "iprob_mixed"})
             subs = _subsets_single_district(rng, bi, T, 6 if tier == "quick" else 14)
             for Cs in subs:
                 kinds = cands if len(cands) <= 4 else rng.sample(cands, 4)
